@@ -13,19 +13,20 @@ namespace GcArena
 structure Recol (T : Nat → Prop) (c c' : Ctx) : Prop where
   steps : c'.steps = c.steps
   rest : c'.rest = c.rest
+  pre : c'.pre = c.pre
   keep : ∀ j o, c.heap.get j = some o → ∃ o', c'.heap.get j = some o' ∧ o'.live = o.live ∧
     o'.slots = o.slots ∧ o'.needsTrace = o.needsTrace ∧ cls o.color ≤ cls o'.color ∧ (¬ T j → o' = o)
   noNew : ∀ j o', c'.heap.get j = some o' → ∃ o, c.heap.get j = some o
 
 theorem Recol.ofSame {T} {c c' : Ctx} (steps : c'.steps = c.steps) (rest : c'.rest = c.rest)
-    (heap : ∀ j, c'.heap.get j = c.heap.get j) : Recol T c c' :=
-  ⟨steps, rest, fun j o ho => ⟨o, by rw [heap]; exact ho, rfl, rfl, rfl, Nat.le_refl _, fun _ => rfl⟩,
+    (heap : ∀ j, c'.heap.get j = c.heap.get j) (pre : c'.pre = c.pre := by first | rfl | simp) : Recol T c c' :=
+  ⟨steps, rest, pre, fun j o ho => ⟨o, by rw [heap]; exact ho, rfl, rfl, rfl, Nat.le_refl _, fun _ => rfl⟩,
    fun j o' ho' => ⟨o', by rw [← heap]; exact ho'⟩⟩
 
 theorem Recol.refl {T} (c : Ctx) : Recol T c c := Recol.ofSame rfl rfl (fun _ => rfl)
 
 theorem Recol.trans {T} {a b c : Ctx} (h1 : Recol T a b) (h2 : Recol T b c) : Recol T a c := by
-  refine ⟨h2.steps.trans h1.steps, h2.rest.trans h1.rest, ?_, ?_⟩
+  refine ⟨h2.steps.trans h1.steps, h2.rest.trans h1.rest, h2.pre.trans h1.pre, ?_, ?_⟩
   · intro j o ho
     obtain ⟨o1, ho1, l1, s1, n1, c1, u1⟩ := h1.keep j o ho
     obtain ⟨o2, ho2, l2, s2, n2, c2, u2⟩ := h2.keep j o1 ho1
@@ -37,19 +38,20 @@ theorem Recol.trans {T} {a b c : Ctx} (h1 : Recol T a b) (h2 : Recol T b c) : Re
 
 theorem Recol.mono {T T' : Nat → Prop} {c c' : Ctx} (h : Recol T c c') (hT : ∀ j, T j → T' j) :
     Recol T' c c' :=
-  ⟨h.steps, h.rest, fun j o ho => by
+  ⟨h.steps, h.rest, h.pre, fun j o ho => by
     obtain ⟨o', ho', l, s, n, cl, u⟩ := h.keep j o ho
     exact ⟨o', ho', l, s, n, cl, fun hn => u (fun ht => hn (hT j ht))⟩, h.noNew⟩
 
 theorem recol_fail {T} (c : Ctx) (f : Fault) : Recol T c (c.fail f) :=
-  Recol.ofSame (Ctx.fail_steps c f) (Ctx.fail_rest c f) (fun _ => by rw [Ctx.fail_heap])
+  Recol.ofSame (Ctx.fail_steps c f) (Ctx.fail_rest c f) (fun _ => by rw [Ctx.fail_heap]) (Ctx.fail_pre c f)
 
 /-- Recolouring one object (plus any bookkeeping that leaves heap, steps and sweep list alone). -/
 theorem Recol.ofRecolor {T} {c c' : Ctx} {t : Nat} {o : Obj} {col : Color} (ho : c.heap.get t = some o)
     (hT : T t) (hcls : cls o.color ≤ cls col) (steps : c'.steps = c.steps) (rest : c'.rest = c.rest)
+    (pre : c'.pre = c.pre)
     (heap : ∀ j, c'.heap.get j = if j = t then some { o with color := col } else c.heap.get j) :
     Recol T c c' := by
-  refine ⟨steps, rest, ?_, ?_⟩
+  refine ⟨steps, rest, pre, ?_, ?_⟩
   · intro j oj hoj
     by_cases hj : j = t
     · subst hj
@@ -73,12 +75,12 @@ theorem recol_trace {T} (c : Ctx) (t : Nat) (hT : T t) : Recol T c (c.trace t) :
       rw [this]; exact Recol.refl c
     · by_cases hnt : o.needsTrace = true
       · refine Recol.ofRecolor (col := .gray) ho hT (by cases hc : o.color <;> simp [cls])
-          (trace_steps c t) (Ctx.trace_rest c t) ?_
+          (trace_steps c t) (Ctx.trace_rest c t) (Ctx.trace_pre c t) ?_
         intro j
         cases hc : o.color <;> cases hl : o.live <;>
           simp_all [Ctx.trace, Ctx.setObj, Ctx.withMetrics, Heap.get_set]
       · refine Recol.ofRecolor (col := .black) ho hT (by cases hc : o.color <;> simp [cls])
-          (trace_steps c t) (Ctx.trace_rest c t) ?_
+          (trace_steps c t) (Ctx.trace_rest c t) (Ctx.trace_pre c t) ?_
         intro j
         cases hc : o.color <;> simp_all [Ctx.trace, Ctx.setObj, Ctx.withMetrics, Heap.get_set]
 
@@ -90,13 +92,19 @@ theorem recol_traceWeak {T} (c : Ctx) (t : Nat) (hT : T t) : Recol T c (c.traceW
   | some o =>
     by_cases hw : o.color = .white
     · refine Recol.ofRecolor (col := .whiteWeak) ho hT (by simp [hw, cls])
-        (traceWeak_steps c t) (Ctx.traceWeak_rest c t) ?_
+        (traceWeak_steps c t) (Ctx.traceWeak_rest c t) (Ctx.traceWeak_pre c t) ?_
       intro j
       simp [Ctx.traceWeak, ho, hw, Ctx.setObj, Ctx.withMetrics, Heap.get_set]
     · have : c.traceWeak t = c := by simp [Ctx.traceWeak, ho, hw]
       rw [this]; exact Recol.refl c
 
 theorem makeGrayAgain_rest (c : Ctx) (t : Nat) : (c.makeGrayAgain t).rest = c.rest := by
+  unfold Ctx.makeGrayAgain
+  split
+  · simp
+  · simp only; split <;> simp
+
+theorem makeGrayAgain_pre (c : Ctx) (t : Nat) : (c.makeGrayAgain t).pre = c.pre := by
   unfold Ctx.makeGrayAgain
   split
   · simp
@@ -109,7 +117,7 @@ theorem recol_makeGrayAgain {T} (c : Ctx) (t : Nat) (hT : T t) : Recol T c (c.ma
     rw [this]; exact recol_fail _ _
   | some o =>
     refine Recol.ofRecolor (col := .gray) ho hT (by cases hc : o.color <;> simp [cls])
-      (makeGrayAgain_steps c t) (makeGrayAgain_rest c t) ?_
+      (makeGrayAgain_steps c t) (makeGrayAgain_rest c t) (makeGrayAgain_pre c t) ?_
     intro j
     by_cases hb : o.color = .black <;> simp [Ctx.makeGrayAgain, ho, hb, Ctx.setObj, Heap.get_set]
 
@@ -127,6 +135,13 @@ theorem resurrect_rest (c : Ctx) (t : Nat) : (c.resurrect t).rest = c.rest := by
   · simp only
     (repeat' split) <;> simp
 
+theorem resurrect_pre (c : Ctx) (t : Nat) : (c.resurrect t).pre = c.pre := by
+  unfold Ctx.resurrect
+  split
+  · simp
+  · simp only
+    (repeat' split) <;> simp
+
 theorem recol_resurrect {T} (c : Ctx) (t : Nat) (hT : T t) : Recol T c (c.resurrect t) := by
   cases ho : c.heap.get t with
   | none =>
@@ -135,11 +150,11 @@ theorem recol_resurrect {T} (c : Ctx) (t : Nat) (hT : T t) : Recol T c (c.resurr
   | some o =>
     by_cases hw : o.color = .white ∨ o.color = .whiteWeak
     · refine Recol.ofRecolor (col := .gray) ho hT (by cases hc : o.color <;> simp [cls])
-        (resurrect_steps c t) (resurrect_rest c t) ?_
+        (resurrect_steps c t) (resurrect_rest c t) (resurrect_pre c t) ?_
       intro j
       rw [resurrect_get c t o ho]
       simp [hw]
-    · refine Recol.ofSame (resurrect_steps c t) (resurrect_rest c t) ?_
+    · refine Recol.ofSame (resurrect_steps c t) (resurrect_rest c t) ?_ (resurrect_pre c t)
       intro j
       rw [resurrect_get c t o ho]
       simp [hw]
@@ -257,12 +272,14 @@ structure MutFacts (op : Op) (a a' : Arena) : Prop where
       j = a.ctx.heap.size ∧ o'.color = .white ∧ o'.live = true ∧ (∀ p, some p ∈ o'.slots → p ∈ a.temps)
   root : ∀ p, some p ∈ a'.root → some p ∈ a.root ∨ p ∈ a.temps
   temps : ∀ p, p ∈ a'.temps → TempOK a p
+  pre : a'.ctx.pre = a.ctx.pre ∨
+    (a'.ctx.pre = a.ctx.heap.size :: a.ctx.pre ∧ a.ctx.heap.get a.ctx.heap.size = none)
 
 theorem MutFacts.ofRecol {op : Op} {a a' : Arena} (r : Recol (Held a) a.ctx a'.ctx)
     (hph : a.ctx.phase ≠ .mark → ∀ j, a'.ctx.heap.get j = a.ctx.heap.get j)
     (hroot : ∀ p, some p ∈ a'.root → some p ∈ a.root ∨ p ∈ a.temps)
     (htemps : ∀ p, p ∈ a'.temps → TempOK a p) : MutFacts op a a' := by
-  refine ⟨r.steps, r.rest, ?_, ?_, hroot, htemps⟩
+  refine ⟨r.steps, r.rest, ?_, ?_, hroot, htemps, Or.inl r.pre⟩
   · intro j o ho
     obtain ⟨o', ho', l, sl, n, cl, u⟩ := r.keep j o ho
     refine ⟨o', ho', l, n, cl, ?_, u, Or.inl sl⟩
@@ -345,7 +362,8 @@ theorem stepBody_mutFacts {a : Arena} (h : Inv a) (fin : Bool) (op : Op) (hop : 
               if j = a.ctx.heap.size then some { color := .white, needsTrace := nt, live := true, slots := slots }
               else a.ctx.heap.get j := by
             intro j; simp [Ctx.link, Heap.get_set, Heap.fresh]
-          refine ⟨by rw [e1]; rfl, by rw [e1]; rfl, ?_, ?_, ?_, ?_⟩
+          refine ⟨by rw [e1]; rfl, by rw [e1]; rfl, ?_, ?_, ?_, ?_,
+            Or.inr ⟨by rw [e1]; rfl, by have := Heap.get_fresh a.ctx.heap; rwa [Heap.fresh] at this⟩⟩
           · intro j o ho
             have hj : j ≠ a.ctx.heap.size := by
               intro he; rw [he] at ho
@@ -545,13 +563,13 @@ theorem stepBody_mutFacts {a : Arena} (h : Inv a) (fin : Bool) (op : Op) (hop : 
         · -- the store itself: a barrier (before or after, or none) and one `setSlot`
           have key : ∀ (c1 c2 : Ctx), Recol (Held a) a.ctx c1 →
               (a.ctx.phase ≠ .mark → ∀ j, c1.heap.get j = a.ctx.heap.get j) →
-              c2.steps = c1.steps → c2.rest = c1.rest →
+              c2.steps = c1.steps → c2.rest = c1.rest → c2.pre = c1.pre →
               (∀ j, c2.heap.get j = match c1.heap.get p with
                 | none => c1.heap.get j
                 | some o => if j = p then some { o with slots := o.slots.set i v } else c1.heap.get j) →
               (∀ cover, MutFacts (.store path p i v) a { a with ctx := c2, cover := cover }) ∧
               (∀ j o', c2.heap.get j = some o' → ∃ o, a.ctx.heap.get j = some o) := by
-            intro c1 c2 r hph hst hre hget
+            intro c1 c2 r hph hst hre hpr hget
             have noNew : ∀ j o', c2.heap.get j = some o' → ∃ o, a.ctx.heap.get j = some o := by
               intro j o' ho2
               rw [hget] at ho2
@@ -565,7 +583,8 @@ theorem stepBody_mutFacts {a : Arena} (h : Inv a) (fin : Bool) (op : Op) (hop : 
               obtain ⟨o1, ho1⟩ := this
               exact r.noNew j o1 ho1
             refine ⟨fun cover => ?_, noNew⟩
-            refine ⟨hst.trans r.steps, hre.trans r.rest, ?_, ?_, fun _ hq => Or.inl hq, fun _ hq => Or.inl hq⟩
+            refine ⟨hst.trans r.steps, hre.trans r.rest, ?_, ?_, fun _ hq => Or.inl hq, fun _ hq => Or.inl hq,
+              Or.inl (hpr.trans r.pre)⟩
             · intro j o ho
               obtain ⟨o1, ho1, l, sl, n, cl, u⟩ := r.keep j o ho
               have hcol : a.ctx.phase ≠ .mark → o1.color = o.color := by
@@ -596,26 +615,28 @@ theorem stepBody_mutFacts {a : Arena} (h : Inv a) (fin : Bool) (op : Op) (hop : 
             intro c1; unfold Arena.setSlot; split <;> simp
           have setrest : ∀ (c1 : Ctx), (Arena.setSlot c1 p i v).rest = c1.rest := by
             intro c1; unfold Arena.setSlot; split <;> simp
+          have setpre : ∀ (c1 : Ctx), (Arena.setSlot c1 p i v).pre = c1.pre := by
+            intro c1; unfold Arena.setSlot; split <;> simp
           cases path with
           | write =>
             exact (key (a.ctx.backwardBarrier p none) _ (recol_backwardBarrier _ _ _ hheld)
-              (fun hne j => by rw [backwardBarrier_noop hne]) (setsteps _) (setrest _) (setget _)).1 _
+              (fun hne j => by rw [backwardBarrier_noop hne]) (setsteps _) (setrest _) (setpre _) (setget _)).1 _
           | raw =>
             simp only
             split
             · exact rf
-            · exact (key a.ctx _ (Recol.refl _) (fun _ _ => rfl) (setsteps _) (setrest _) (setget _)).1 _
+            · exact (key a.ctx _ (Recol.refl _) (fun _ _ => rfl) (setsteps _) (setrest _) (setpre _) (setget _)).1 _
           | storeThenBarrier =>
             -- barrier after the store: compose the other way round
             have r2 : Recol (Held a) (Arena.setSlot a.ctx p i v) ((Arena.setSlot a.ctx p i v).backwardBarrier p none) :=
               recol_backwardBarrier _ _ _ hheld
             obtain ⟨m1', nn1⟩ := key a.ctx (Arena.setSlot a.ctx p i v) (Recol.refl _) (fun _ _ => rfl) (setsteps _)
-              (setrest _) (setget _)
+              (setrest _) (setpre _) (setget _)
             have m1 := m1' a.cover
             have hph1 : (Arena.setSlot a.ctx p i v).phase = a.ctx.phase := by
               unfold Arena.setSlot; split <;> simp
             refine ⟨r2.steps.trans m1.steps, r2.rest.trans m1.rest, ?_, ?_, fun _ hq => Or.inl hq,
-              fun _ hq => Or.inl hq⟩
+              fun _ hq => Or.inl hq, Or.inl (r2.pre.trans (setpre _))⟩
             · intro j o ho
               obtain ⟨o1, ho1, l, n, cl, hc, u, sl⟩ := m1.keep j o ho
               obtain ⟨o2, ho2, l2, sl2, n2, cl2, u2⟩ := r2.keep j o1 ho1
@@ -656,6 +677,6 @@ theorem step_mutFacts {a : Arena} (h : Inv a) (op : Op) (hop : op.isMutator = tr
   rw [hnot]
   simp only [Bool.false_eq_true, if_false]
   have m := stepBody_mutFacts h.unmark a.marked op hop
-  exact ⟨m.steps, m.rest, m.keep, m.fresh, m.root, m.temps⟩
+  exact ⟨m.steps, m.rest, m.keep, m.fresh, m.root, m.temps, m.pre⟩
 
 end GcArena
